@@ -455,9 +455,13 @@ func ruleStoreAtomicity(c *Ctx) {
 			continue
 		}
 		nsig += len(multi)
-		key := fmt.Sprintf("ex.%s/%s", fn.Name(), strings.Join(sortedKeys(multi), ""))
+		// one obligation per handler: "this handler is not atomic". Its multi-step paths are part
+		// of the message, not of the key: adding an index or a counter to a container changes the
+		// paths of a handler that is already known not to be atomic, not the finding
+		key := fmt.Sprintf("ex.%s", fn.Name())
+		sigList := strings.Join(sortedKeys(multi), "")
 		_ = hasLock
-		c.bad(rid, key, c.P.pos(fn.Pos()), "multi-step path(s) on shared store state that no single lock acquisition covers from the first step to the last: concurrent clients can interleave between the steps (check-then-act, lost update, or a data race on record contents)")
+		c.bad(rid, key, c.P.pos(fn.Pos()), "multi-step path(s) "+sigList+" on shared store state that no single lock acquisition covers from the first step to the last: concurrent clients can interleave between the steps (check-then-act, lost update, or a data race on record contents)")
 		// database creation: check-then-create
 	}
 	c.count("example-handlers", nh)
